@@ -227,7 +227,33 @@ func genLongStringDoc(r *Rand) Doc {
 	return d
 }
 
+// genManySmallArraysDoc: hundreds to thousands of arrays of 1-16 elements: the workload of anything
+// that carves small results out of a shared block.
+func genManySmallArraysDoc(r *Rand) Doc {
+	n := []int{150, 700, 3000}[r.Intn(3)]
+	var b bytes.Buffer
+	b.WriteByte('[')
+	for i := 0; i < n; i++ {
+		if i > 0 {
+			b.WriteByte(',')
+		}
+		b.WriteByte('[')
+		for j, k := 0, 1+(i*7+n)%16; j < k; j++ {
+			if j > 0 {
+				b.WriteByte(',')
+			}
+			fmt.Fprintf(&b, "%d", i*100+j)
+		}
+		b.WriteByte(']')
+	}
+	b.WriteByte(']')
+	return docOf(b.Bytes(), "many-small-arrays")
+}
+
 func genC18Doc(r *Rand) Doc {
+	if r.Chance(1, 25) {
+		return genManySmallArraysDoc(r)
+	}
 	switch r.Pick(3, 4, 2, 3, 2, 1, 2, 1) {
 	case 0:
 		return genDoc(r, "tiny")
